@@ -118,6 +118,10 @@ func limits(base int, n int) *model.LoadControlLimitListDataType {
 			IsLimitChangeable: util.Ptr(true),
 			IsLimitActive:     util.Ptr(i%2 == 0),
 			Value:             model.NewScaledNumberType(float64(base + i)),
+			// a period without start and with a relative end: the custom (un)marshaller re-expresses the end
+			// against the clock, i.e. every message that carries it runs the time/duration conversions of
+			// model/commondatatypes_additions.go - from as many goroutines as there are connections
+			TimePeriod: &model.TimePeriodType{EndTime: model.NewAbsoluteOrRelativeTimeTypeFromDuration(time.Duration(base+i+1) * time.Minute)},
 		})
 	}
 	return d
